@@ -612,6 +612,9 @@ func c02LimitCases() []c02Limit {
 		out = append(out, c02Limit{"siglen", v, 16384}, c02Limit{"siglen", v, 16385}, c02Limit{"hdrlen", v, 524288}, c02Limit{"hdrlen", v, 524289})
 	}
 	out = append(out, c02Limit{"siglen", 0, 1<<24 - 1}, c02Limit{"siglen", 0, 1 << 24}, c02Limit{"hdrlen", 0, 1<<24 - 1}, c02Limit{"hdrlen", 0, 1 << 24})
+	// the payload has no length field and no limit in any version: bodies whose MI encoding stays below / crosses 16 MiB
+	// (2^24, the largest value of the 3-byte fields next to it) must round-trip like any other
+	out = append(out, c02Limit{"payload", 1, 1<<24 - 40000}, c02Limit{"payload", 2, 1 << 24}, c02Limit{"payload", 0, 1<<24 + 1<<20 + 1})
 	return out
 }
 
@@ -636,8 +639,13 @@ func c02Limits(c *mc.Ctx) {
 	url := c08Origin + "index.html"
 	certURL := c08Origin + "c?p="
 	resp := []refsxg.Field{c02CT()}
+	rs := 16
+	if lc.kind == "payload" {
+		payload = pattern(lc.n, c.Seed)
+		rs = 16384
+	}
 	build := func() *c02Built {
-		b, err := c02Build(ver, k, url, "GET", nil, resp, 200, payload, 16, c02Date, 3600, certURL, alg)
+		b, err := c02Build(ver, k, url, "GET", nil, resp, 200, payload, rs, c02Date, 3600, certURL, alg)
 		if err != nil {
 			panic("c02: building the boundary exchange: " + err.Error())
 		}
@@ -645,6 +653,8 @@ func c02Limits(c *mc.Ctx) {
 	}
 	var b *c02Built
 	switch lc.kind {
+	case "payload":
+		b = build()
 	case "urllen":
 		url = c08PadURL(lc.n, "u")
 		b = build()
@@ -663,7 +673,7 @@ func c02Limits(c *mc.Ctx) {
 	if err != nil {
 		panic(err)
 	}
-	actual := map[string]int{"urllen": len(b.x.URL), "siglen": len(b.x.Signature), "hdrlen": len(hdr)}[lc.kind]
+	actual := map[string]int{"urllen": len(b.x.URL), "siglen": len(b.x.Signature), "hdrlen": len(hdr), "payload": len(payload)}[lc.kind]
 	if actual != lc.n {
 		panic(fmt.Sprintf("c02: boundary construction missed its target: %s = %d, wanted %d", lc.kind, actual, lc.n))
 	}
